@@ -38,10 +38,12 @@ Definition spec_nearest (s : spec) (req last : N) : N :=
 
 (* "visits exactly the stored records in range in ascending order and then signals completion";
    a callback that refuses its abort-th record ends the visit there; the completion call follows *)
-Definition spec_range (s : spec) (from to abort : N) : out :=
+Definition spec_visited (s : spec) (from to abort : N) : list (N * list byte) :=
   let finish := if to =? 0 then spec_last s else to in
   let inr := filter (fun kb => (from <=? fst kb) && (fst kb <=? finish)) (s_msgs s) in
-  let visited := if abort =? 0 then inr else firstn (N.to_nat abort) inr in
+  if abort =? 0 then inr else firstn (N.to_nat abort) inr.
+Definition spec_range (s : spec) (from to abort : N) : out :=
+  let visited := spec_visited s from to abort in
   RRange (N.of_nat (length visited))
          (map (fun kb => (fst kb, snd kb, false)) visited ++ [completion]).
 
